@@ -573,6 +573,31 @@ pub fn run(ctx: &Ctx) -> i32 {
             vals.push(JT::Obj(vec![(format!("{a}{b}"), JT::Str(format!("{b}{a}")))]));
         }
     }
+    // key placement: every special key at every level of nested tables, arrays of tables and
+    // mixed scalar/table siblings (document formats repeat ancestor keys in headers and paths)
+    let before = vals.len();
+    let special_keys = ["", "a b", "x.y", "k\"q", "k'q", "é", "1", "true", "-", "#c", "[t]", "a=b", "k\\n", "\u{1f}", "null", "a\nb", "~", "😀"];
+    let o = |fields: Vec<(&str, JT)>| {
+        let mut f: Vec<(String, JT)> = fields.into_iter().map(|(k, v)| (k.to_string(), v)).collect();
+        f.sort_by(|p, q| p.0.cmp(&q.0));
+        JT::Obj(f)
+    };
+    let one = || JT::Num(1.0);
+    for k in special_keys {
+        let inner = || o(vec![("x", one())]);
+        vals.push(o(vec![(k, o(vec![("in", inner())]))]));
+        vals.push(o(vec![("o", o(vec![(k, inner())]))]));
+        vals.push(o(vec![("o", o(vec![("p", o(vec![(k, one())]))]))]));
+        vals.push(o(vec![(k, JT::Arr(vec![o(vec![("in", inner())])]))]));
+        vals.push(o(vec![("o", JT::Arr(vec![o(vec![(k, inner())]), o(vec![(k, JT::Arr(vec![inner()]))])]))]));
+        vals.push(o(vec![(k, o(vec![("v", one()), ("in", inner()), ("s", JT::Str(k.to_string()))]))]));
+        vals.push(o(vec![(k, o(vec![(k, o(vec![(k, one())]))]))]));
+        vals.push(o(vec![("o", o(vec![(k, JT::Arr(vec![one(), JT::Arr(vec![one()])])), ("z", inner())]))]));
+        for k2 in special_keys.iter().take(6) {
+            vals.push(o(vec![(k, o(vec![(*k2, inner())])), ("z", one())]));
+        }
+    }
+    total.extra.insert("key_placement_trees".into(), json!(vals.len() - before));
     let r = util::par_forked(&cfg, 128, |sh| value_sweep(&vals, sh));
     total.extra.insert("value_trees".into(), json!(vals.len()));
     total.merge(r);
